@@ -182,6 +182,22 @@ func checkC01(c *Check) {
 	}
 	c.Floor("R6", 8)
 
+	// ---- R7 no lost update: a record changed after its last save
+	c.lostUpdateRule("R7", kfuncs)
+
+	// ---- R8 double entry inside settlement (shared with C02-R4): what a payee is credited is what the account is
+	// debited; otherwise recorded balances and the module balance drift apart without any bank call
+	c.As("R4", "R8", func() {
+		for _, fn := range kfuncs {
+			if fn.Signature.Recv() != nil || fn.Parent() != nil || !strings.HasPrefix(fn.Name(), "accountSettle") {
+				continue
+			}
+			c.Analysed(fnName(fn))
+			c.doubleEntryHelper(fn)
+		}
+	})
+	c.Floor("R8", 9)
+
 	// ---- R5 configuration
 	c.macPerms(modName)
 }
